@@ -89,6 +89,10 @@ class Engine {
     // N > 0: every N-th run of a worker is executed in a pristine child process instead
     // of in the (warm) worker, so that first-use initialisation is also exercised
     virtual unsigned cold_start_every() const { return 0; }
+    // When a violation seen inside a long-lived worker does not reproduce from its plan in a
+    // pristine process, the engine may supply a plan that also replays what this process did
+    // before (its hidden state: heap layout, addresses left on the stack).  Empty = none.
+    virtual std::string history_plan(const Plan &) { return std::string(); }
     // wall-clock backstop per run, for builds without a step budget
     virtual unsigned hang_timeout_s() const { return 60; }
     // extra engine report (json object body without braces) appended to STATS
